@@ -302,6 +302,59 @@ def bracket_string_lane(ctx, rng, select, keys_fn, extra_case=None, profile=None
     return n
 
 
+def math_of_literal_lane(ctx, rng, select, keys_fn, extra_case=None, profile=None):
+    """round / floor / ceiling applied DIRECTLY to number literals (midpoints with even and odd
+    whole part, both signs, values next to a midpoint, whole numbers, huge values) in 6 operator
+    shapes: a translation that folds the call itself must fold it with OData's rounding."""
+    lits = ["0.5", "1.5", "2.5", "3.5", "4.5", "-0.5", "-1.5", "-2.5", "-3.5", "2.4999999", "2.5000001", "0.49999999999999994",
+            "7.0", "-7.0", "1e16", "0.0", "-0.0", "1.0e0", "6.5", "-6.5", "100.5", "1e-9"]
+    a, b, f = T.ident("a"), T.ident("b"), T.ident("f")
+    n = 0
+    for mf in ("round", "floor", "ceiling"):
+        for l in lits:
+            m = T.call(mf, T.lit("float", l))
+            for t in (("cmp", "eq", a, m), ("cmp", "lt", m, f), ("cmp", "eq", ("bin", "mul", m, T.I(2)), b),
+                      ("cmp", "ge", ("bin", "sub", a, m), T.I(0)), ("cmp", "ne", m, a),
+                      ("cmp", "eq", ("bin", "add", m, T.lit("float", "0.5")), f)):
+                if profile is not None and not scalar.conforms(t, profile):
+                    continue
+                n += 1
+                if not ctx.mine(n):
+                    continue
+                ctx.count("math_of_literal_filters")
+                _judge(ctx, t, rng, select, keys_fn, "math-of-literal", True, 200, extra_case, profile)
+    return n
+
+
+def neutral_boolean_lane(ctx, rng, select, keys_fn, extra_case=None, profile=None):
+    """Bare true / false as operands of and / or next to groups of the OTHER connective, at
+    every depth and side: dropping a neutral (or deciding) constant must not drop the brackets
+    of what stays."""
+    a, b, c = T.ident("a"), T.ident("b"), T.ident("c")
+    X, Y, Z = ("cmp", "gt", a, T.I(0)), ("cmp", "gt", b, T.I(0)), ("cmp", "eq", c, T.I(2))
+    tr, fa = T.lit("bool", "true"), T.lit("bool", "false")
+    n = 0
+    for k in (tr, fa):
+        for inner_op, outer_op in (("or", "and"), ("and", "or")):
+            g = ("bool", inner_op, X, Y)
+            cells = [("bool", outer_op, ("bool", outer_op, k, g), Z), ("bool", outer_op, Z, ("bool", outer_op, k, g)),
+                     ("bool", outer_op, ("bool", outer_op, g, k), Z), ("bool", outer_op, Z, ("bool", outer_op, g, k)),
+                     ("bool", outer_op, ("bool", inner_op, k, g), Z), ("bool", outer_op, Z, ("bool", inner_op, g, k)),
+                     ("un", "not", ("bool", outer_op, k, g)), ("un", "not", ("bool", inner_op, g, k)),
+                     ("bool", outer_op, ("un", "not", ("bool", outer_op, k, g)), Z),
+                     ("bool", inner_op, ("bool", outer_op, k, X), ("bool", outer_op, Y, k)),
+                     ("cmp", "eq", ("bool", outer_op, k, g), tr), ("bool", outer_op, k, ("bool", outer_op, k, g))]
+            for t in cells:
+                if profile is not None and not scalar.conforms(t, profile):
+                    continue
+                n += 1
+                if not ctx.mine(n):
+                    continue
+                ctx.count("neutral_boolean_filters")
+                _judge(ctx, t, rng, select, keys_fn, "neutral-boolean", True, 200, extra_case, profile)
+    return n
+
+
 def big_list_lane(ctx, rng, select, keys_fn, n, extra_case=None, profile=None, sizes=(33, 257, 1001, 1500)):
     """Long in-lists as operands of and / or / not / eq, the values that decide the rows
     placed first, last or in the middle of the padding (a translation that chunks, sorts or
